@@ -16,6 +16,7 @@ CHECK_DEADLOCK FALSE
 CONSTANTS
   NBlocks = 64
   N = 12
+  TwoStride = %d
 INVARIANT OneSite
 INVARIANT TwoSites
 INVARIANT OrbitStabiliser
@@ -125,8 +126,8 @@ def run(ctx):
         else:
             sites = [[a, b, c] for a in range(12) for b in range(12) for c in range(12)]
         tlc.write_json(f, {"rows": rows, "sites": sites})
-        ctx.model_check("mc/MC_Crystal.tla", MC_CFG, name="MC_Crystal(%d sites)" % len(sites), data_driven=True,
-                        env={"SG_FILE": f}, timeout=ctx.pick(600, 3000))
+        ctx.model_check("mc/MC_Crystal.tla", MC_CFG % ctx.pick(1, 8), name="MC_Crystal(%d sites)" % len(sites), data_driven=True,
+                        env={"SG_FILE": f}, timeout=ctx.pick(600, 6000))
     finally:
         tlc.cleanup(d)
     recs = recipes_for(ctx, rows, ctx.pick(1, 8))
